@@ -80,7 +80,11 @@ def run(tier, seed):
         "handle invariant _num_out_ports is None or >= 0 (counts come from len(...) / explicit non-negative arguments)",
     ]
     res.assumptions = ["slice steps are None or positive (the statement's domain); arguments inhabit their annotated types"]
-    standard_flow(res, FILES, TARGETS, concretize, bounded_modules=[("bounded.c16", 120, 600)])
+    # the count a handle returned by add_op / call carries is the operation's num_out: the value outputs of its
+    # (instantiated) signature - contracts shared with C06
+    ops_files = [os.path.join(VERIF, "contracts", f) for f in ("node_port.py", "tys.py", "ops.py")]
+    ops_targets = ["hugr.ops." + c + ".num_out" for c in ("Input", "DFG", "CFG", "Conditional", "TailLoop", "DataflowBlock", "CallIndirect", "Call", "UnpackTuple")]
+    standard_flow(res, FILES, TARGETS, concretize, bounded_modules=[("bounded.c16", 120, 600)], more=[(ops_files, ops_targets)])
     for g in ground_flags():
         res.ground.append(g)
         if not g["ok"]:
